@@ -14,6 +14,7 @@ import GoNeat.Driver.Innov
 import GoNeat.Driver.History
 import GoNeat.Driver.ModNet
 import GoNeat.Driver.Sort
+import GoNeat.Driver.FastHand
 
 namespace GoNeat.Driver
 def allOps : List (String × Handler) :=
@@ -32,4 +33,5 @@ def allOps : List (String × Handler) :=
   ++ historyOps
   ++ modNetOps
   ++ sortOps
+  ++ fastHandOps
 end GoNeat.Driver
